@@ -138,14 +138,20 @@ def run(ctx: Ctx) -> None:
     if len(outer) != 1:
         raise AnalysisError("_discard_ctor_initializer: outer loop anchor vanished")
     oh = outer[0]
-    conts = [n for n in dcfg.nodes if n.kind == "stmt" and isinstance(n.stmt, ast.Continue) and any(s is oh for s, _ in n.succ)]
-    seps = set()
-    for c in conts:
-        for d, lab in dcfg.control_deps(c):
-            if d.loop is None and lab == "T":
-                seps |= {x.value for x in ast.walk(d.cond) if isinstance(x, ast.Constant) and isinstance(x.value, str)}
-    ctx.ob("R13.6", "parser:CxxParser._discard_ctor_initializer|only ',' restarts the initializer loop", bool(conts) and seps == {","},
-           msg=f"the scanner goes on to another initializer after {sorted(seps)}: a pack expansion `...` that ends the list would make it swallow the function body as an initializer", node=dc, mod=mod)
+    # every way back to the head of the initializer loop carries a token known to be ','
+    tf = _typefacts(pm, "_discard_ctor_initializer")
+    inside = {id(x) for st_ in oh.loop.body for x in ast.walk(st_)}
+    backs = [(p, lab) for p, lab in oh.pred if p.stmt is not None and id(p.stmt) in inside]
+    tokvars = {t.id for x in walk_local(dc) if isinstance(x, ast.Assign) for t in x.targets if isinstance(t, ast.Name) and any(r and r[0] == "lex" for c_, r in [(c2, pm.resolve("_discard_ctor_initializer", c2)) for c2 in ast.walk(x.value) if isinstance(c2, ast.Call)])}
+    tokvars |= {t.id for x in walk_local(dc) if isinstance(x, ast.Assign) and isinstance(x.value, ast.Call) and isinstance(x.value.func, ast.Name) for t in x.targets if isinstance(t, ast.Name)}
+    bad_back = []
+    for p, lab in backs:
+        cons = [tf.on_edge(p, lab, oh, v) for v in tokvars]
+        if not any(c == ("in", frozenset({","})) for c in cons):
+            bad_back.append((p, [c for c in cons if c[0] == "in"]))
+    seps = sorted({x for _, cs in bad_back for c in cs for x in c[1]})
+    ctx.ob("R13.6", "parser:CxxParser._discard_ctor_initializer|only ',' restarts the initializer loop", bool(backs) and not bad_back,
+           msg=f"the scanner can go on to another initializer with a token that is not known to be ',' (possible: {seps or 'anything'}; line {bad_back[0][0].lineno if bad_back else 0}): a pack expansion `...` that ends the list would make it swallow the function body as an initializer", node=dc, mod=mod)
     ell = [n for n in dcfg.nodes if n.kind == "test" and n.cond is not None and "'ELLIPSIS'" in norm(n.cond)]
     ok = len(ell) == 1
     if ok:
@@ -206,9 +212,25 @@ def _site_idx(pm: ParserModel, fname: str, call: ast.Call) -> int:
     return -1
 
 
+_TF_CACHE: Dict[Tuple[int, str], object] = {}
+
+
+def _typefacts(pm: ParserModel, fname: str):
+    from ..typefacts import TypeFacts
+
+    k = (id(pm), fname)
+    if k not in _TF_CACHE:
+        _TF_CACHE[k] = TypeFacts(pm.cfg(fname), resolve=lambda c: pm.resolve(fname, c))
+    return _TF_CACHE[k]
+
+
 def _opener_consumed(pm: ParserModel, fname: str, cfg: CFG, n: Optional[Node], opener: str) -> bool:
     if n is None:
         return False
+    # a token variable is known to hold exactly the opener here (branch conditions, loop exits, must-be accessors)
+    tf = _typefacts(pm, fname)
+    if tf.vars_fixed_to(n, opener):
+        return True
     dom = cfg.dominators().get(n.id, set())
     for i in dom:
         d = cfg.nodes[i]
@@ -241,6 +263,12 @@ def _dominated_by_type_test(cfg: CFG, n: Node, var: str, openers: Set[str]) -> b
 
 
 def _counting_loop(ctx: Ctx, pm: ParserModel) -> None:
+    """_discard_contents(start, end) is decided by interpreting its source over every short script of token classes
+    {opener, closer, other} (sa/miniexec.py): entered after one opener, it must return right after the closer that
+    balances that opener, having fetched exactly the tokens up to it - whatever loop shape computes that."""
+    from ..miniexec import Opaque, OutOfTokens, Run, Tok, Unsupported
+    import itertools
+
     fname = "_discard_contents"
     fn = pm.fn(fname)
     mod = pm.mod
@@ -249,84 +277,56 @@ def _counting_loop(ctx: Ctx, pm: ParserModel) -> None:
     if len(params) < 2:
         raise AnalysisError("_discard_contents signature changed")
     start_p, end_p = params[0], params[1]
-    loops = [n for n in cfg.nodes if n.kind == "test" and isinstance(n.loop, ast.While)]
-    if len(loops) != 1:
-        raise AnalysisError("_discard_contents: expected exactly one loop")
-    head = loops[0]
-    loop_stmt = head.loop
-    in_loop = {id(x) for x in ast.walk(loop_stmt)}
-    # the counter: the variable compared with 0 inside the loop
-    counter = None
-    zero_tests = []
-    for n in cfg.nodes:
-        c = n.cond
-        if n.kind == "test" and n is not head and isinstance(c, ast.Compare) and isinstance(c.left, ast.Name) and len(c.ops) == 1 and isinstance(c.comparators[0], ast.Constant) and c.comparators[0].value == 0 and isinstance(c.ops[0], (ast.Eq, ast.LtE)):
-            counter = c.left.id
-            zero_tests.append(n)
-    ok = counter is not None and len(zero_tests) == 1
-    ctx.ob("R13.2", "parser:CxxParser._discard_contents|exit test `level == 0`", ok, msg="no single `== 0` test on the nesting counter", node=fn, mod=mod)
-    if not ok:
-        return
-    stores = [n for n in cfg.nodes if n.kind == "stmt" and isinstance(n.stmt, (ast.Assign, ast.AugAssign)) and any(isinstance(t, ast.Name) and t.id == counter for t in (n.stmt.targets if isinstance(n.stmt, ast.Assign) else [n.stmt.target]))]
-    init = [n for n in stores if id(n.stmt) not in in_loop]
-    inner = [n for n in stores if id(n.stmt) in in_loop]
-    ok = len(init) == 1 and isinstance(init[0].stmt, ast.Assign) and isinstance(init[0].stmt.value, ast.Constant) and init[0].stmt.value.value == 1
-    ctx.ob("R13.2", "parser:CxxParser._discard_contents|counter starts at 1", ok, msg="the nesting counter does not start at 1 (the opener was already consumed by the caller)", node=init[0].stmt if init else fn, mod=mod)
 
-    def delta(n: Node) -> Optional[int]:
-        st = n.stmt
-        atoms: Dict[str, int] = {}
-        if isinstance(st, ast.AugAssign):
-            if isinstance(st.op, ast.Add):
-                linear_form(st.value, atoms, 1)
-            elif isinstance(st.op, ast.Sub):
-                linear_form(st.value, atoms, -1)
-            else:
-                return None
-            atoms[counter] = atoms.get(counter, 0) + 1
-        else:
-            linear_form(st.value, atoms)
-        atoms = {k: v for k, v in atoms.items() if v != 0}
-        if set(atoms) - {counter, "1"} or atoms.get(counter) != 1:
-            return None
-        return atoms.get("1", 0)
+    def is_fetch(c: ast.Call) -> bool:
+        r = pm.resolve(fname, c)
+        return bool(r) and r[0] == "lex" and r[1] in LEX_CONSUME
 
-    def guard(n: Node) -> Optional[str]:
-        """which parameter the token type equals on every path to n (innermost dominating equality test, T side)"""
-        best = None
-        for i in cfg.dominators().get(n.id, set()):
-            d = cfg.nodes[i]
-            c = d.cond
-            if d.kind == "test" and isinstance(c, ast.Compare) and len(c.ops) == 1 and isinstance(c.ops[0], ast.Eq) and isinstance(c.comparators[0], ast.Name) and (attr_chain(c.left) or ("", ""))[-1] == "type":
-                fs = [s for s, lab in d.succ if lab == "F"]
-                if not any(s is n or cfg.paths_avoiding(s, n, lambda y: y is d) for s in fs):
-                    best = c.comparators[0].id
-        return best
-
-    ups = [(n, delta(n), guard(n)) for n in inner]
-    plus = [u for u in ups if u[1] == 1 and u[2] == start_p]
-    minus = [u for u in ups if u[1] == -1 and u[2] == end_p]
-    ok = len(ups) == 2 and len(plus) == 1 and len(minus) == 1
-    ctx.ob("R13.2", "parser:CxxParser._discard_contents|+1 on opener, -1 on closer, nothing else", ok,
-           msg=f"counter updates found: {[(short(n.stmt), d, g) for n, d, g in ups]}; required: +1 under `type == {start_p}`, -1 under `type == {end_p}`", node=fn, mod=mod)
-    if ok:
-        z = zero_tests[0]
-        m = minus[0][0]
-        leave = [s for s, lab in z.succ if lab == "T"]
-        ok2 = cfg.dominates(m, z) and all(not _back_to(cfg, s, head) for s in leave)
-        # the zero test must not be reachable after the +1 update
-        ok2 = ok2 and not cfg.paths_avoiding(plus[0][0], z, lambda y: y is head)
-        ctx.ob("R13.2", "parser:CxxParser._discard_contents|leave exactly when the counter returns to 0 after a closer", ok2,
-               msg="the loop is not left exactly on the closer that brings the counter to 0", node=z.stmt, mod=mod)
-    # one token per iteration; no other exit
-    acqs = [n for n in cfg.nodes if id(n.stmt) in in_loop and any(r and r[0] == "lex" and r[1] in LEX_CONSUME for c, r in pm.node_calls(fname, n))]
-    body_first = [s for s, lab in head.succ if lab == "T"]
-    ok = len(acqs) == 1 and all(s is acqs[0] for s in body_first)
-    ctx.ob("R13.2", "parser:CxxParser._discard_contents|exactly one token consumed per iteration, first thing in the body", ok,
-           msg="an iteration of the skipping loop consumes no token or more than one", node=fn, mod=mod)
-    exits = [n for n in cfg.nodes if id(n.stmt) in in_loop and n.kind == "stmt" and isinstance(n.stmt, (ast.Break, ast.Return))]
-    ok = len(exits) == 1 and zero_tests and any(s is exits[0] for s, lab in zero_tests[0].succ if lab == "T")
-    ctx.ob("R13.2", "parser:CxxParser._discard_contents|single exit", ok, msg="the skipping loop has an exit other than the counter reaching 0", node=fn, mod=mod)
+    scripts = []
+    for n in range(1, 7):
+        for seq in itertools.product("SEO", repeat=n):
+            depth = 1
+            ok = True
+            for i, ch in enumerate(seq):
+                depth += 1 if ch == "S" else -1 if ch == "E" else 0
+                if depth == 0 and i != n - 1:
+                    ok = False
+                    break
+            if ok and depth == 0:
+                scripts.append(seq)
+    results = {"stops at the balancing closer": [], "fetches exactly the skipped tokens": [], "never raises on balanced input": []}
+    unsupported = None
+    for (s_t, e_t, other) in (("(", ")", "x"), ("{", "}", "(")):
+        for seq in scripts:
+            toks = [Tok({"S": s_t, "E": e_t, "O": other}[ch]) for ch in seq] + [Tok(e_t), Tok(other)]
+            run = Run(cfg, {"self": Opaque(), start_p: s_t, end_p: e_t}, toks, is_fetch)
+            try:
+                run.run()
+            except OutOfTokens:
+                results["stops at the balancing closer"].append(("".join(seq), f"runs past the balancing closer and off the end of the input (pair {s_t}{e_t})"))
+                continue
+            except Unsupported as e:
+                unsupported = str(e)
+                break
+            if run.raised:
+                results["never raises on balanced input"].append(("".join(seq), f"raises {run.raised}"))
+            elif run.pos < len(seq):
+                results["stops at the balancing closer"].append(("".join(seq), f"returns after {run.pos} of {len(seq)} tokens (pair {s_t}{e_t})"))
+            elif run.pos > len(seq):
+                results["fetches exactly the skipped tokens"].append(("".join(seq), f"fetches {run.pos - len(seq)} token(s) beyond the balancing closer"))
+        if unsupported:
+            break
+    if unsupported:
+        raise AnalysisError(f"_discard_contents uses a construct the loop interpreter does not model: {unsupported}")
+    legend = "S = opener, E = closer, O = any other token; the function is entered after one opener"
+    for k, bad in results.items():
+        ctx.ob("R13.2", f"parser:CxxParser._discard_contents|{k}", not bad,
+               msg=(f"on the token script {bad[0][0]!r} ({legend}) the skipper {bad[0][1]}: the skipped region is not exactly the bracketed one" if bad else ""),
+               node=fn, mod=mod, detail={"scripts": len(scripts) * 2, "failing": [b[0] for b in bad[:5]]})
+    # the opener was consumed by the caller: an empty region `()` is one closer
+    ctx.ob("R13.2", "parser:CxxParser._discard_contents|scripts enumerated", len(scripts) >= 30, msg="script enumeration broke", node=fn, mod=mod, nontrivial=False)
+    ctx.ob("R13.2", "parser:CxxParser._discard_contents|parameters are the only bracket pair it knows", not any(isinstance(x, ast.Constant) and x.value in ("(", ")", "{", "}", "[", "]", "<", ">") for x in ast.walk(fn)),
+           msg="the skipper compares with a literal bracket instead of its parameters", node=fn, mod=mod, nontrivial=False)
 
 
 def _back_to(cfg: CFG, s: Node, head: Node) -> bool:
